@@ -1103,6 +1103,25 @@ EXTRACTORS["C03"] = EXTRACTORS["C03"] + [SOFT_TRANSFORM]
 TRANSLATOR_MODULES.append("rs2lean_genalign")
 GEN_SRC.update({n: gen_src(n) for n in ("SrcPwTypes", "SrcPwModes", "SrcPwCustom")})
 EXTRACTORS["C01"] = EXTRACTORS["C01"] + [GEN_SRC[n] for n in ("SrcPwTypes", "SrcPwModes", "SrcPwCustom")]
+# genband: the band construction and the entry-point glue of the banded aligner (C02) — dialect "band" of
+# tools/rs2lean_genband.py; Thm/C02.lean imports RbV.Thm.GenSrcBand* and restates the theorems.  The wrapper hands the tree
+# under test to the module (struct declarations pinned in pairwise/mod.rs and sparse.rs).
+TRANSLATOR_MODULES.append("rs2lean_genband")
+GEN_SRC.update({n: gen_src(n) for n in ("SrcBand",)})
+
+
+def _genband_unit(unit_name):
+    inner = GEN_SRC[unit_name]
+
+    def run(repo):
+        import rs2lean_genband
+        rs2lean_genband.REPO = repo
+        return inner(repo)
+    run.__name__ = "gen_src_" + unit_name
+    return run
+
+
+EXTRACTORS["C02"] = EXTRACTORS["C02"] + [_genband_unit("SrcBand")]
 
 
 def main():
